@@ -617,6 +617,23 @@ const permSig = "(*[729]uint,*[729]uint,*[729]uint,*[729]uint)()"
 func curlPermFns(c *Ctx) (method, perm, generic *ssa.Function) {
 	method = c.helper("pkg/curl", "Curl.transform")
 	if method == nil {
+		// the state-level wrapper by what it does: the routine Absorb calls that itself calls a routine of the
+		// permutation's shape (it may be a plain function handed the two state arrays)
+		if ab := c.P.Func("pkg/curl", "Curl.Absorb"); ab != nil {
+			for _, ci := range ana.Calls(ab) {
+				cal := ana.StaticRepoCallee(ci.Common())
+				if cal == nil || cal.Blocks == nil {
+					continue
+				}
+				for _, cj := range ana.Calls(cal) {
+					if f := cj.Common().StaticCallee(); f != nil && ana.InRepo(f) && sigKey(f) == permSig {
+						method = cal
+					}
+				}
+			}
+		}
+	}
+	if method == nil {
 		return
 	}
 	for _, ci := range ana.Calls(method) {
